@@ -2,6 +2,7 @@ package checks
 
 import (
 	"fmt"
+	"path/filepath"
 	"strconv"
 	"strings"
 
@@ -40,20 +41,14 @@ func checkLocation(j *proto.Job, res *proto.Result) (out [][2]string) {
 		return [][2]string{{"location:index-out-of-file", fmt.Sprintf("index %d outside file %s of %d bytes", e.Index, name, len(content))}}
 	}
 	conv := ref.Convention(content)
-	if e.Index == len(content) {
-		// end of file: either the library's "not found" 0/0, or the position of the end
-		if e.Line == 0 && e.Column == 0 {
-			return nil
+	if len(content) == 0 {
+		if (e.Line == 0 && e.Column == 0) || (e.Line == 1 && e.Column == 1) {
+			return nil // there is no line in an empty file: "no position" and "first position" are both truthful
 		}
-		if len(content) > 0 && conv != ref.EOLMixed {
-			l := ref.Locate(content, len(content)-1, conv)
-			if e.Line == l.Line || e.Line == l.Line+1 {
-				return nil
-			}
-			return [][2]string{{"location:eof-line", fmt.Sprintf("index = len(%s) but line %d (last line %d)", name, e.Line, l.Line)}}
-		}
-		return nil
+		return [][2]string{{"location:empty-file", fmt.Sprintf("%s is empty but the error says line %d column %d", name, e.Line, e.Column)}}
 	}
+	// index == len(content) is the position right after the last byte (errors about an unexpected end of the file): it has the
+	// line and column a cursor standing there has, and the quote is the text of that - possibly empty - line
 	if conv == ref.EOLMixed {
 		return nil // no single truth (DESIGN §6)
 	}
@@ -162,10 +157,15 @@ func genTraceScenarios(c *fw.Ctx, n int, emit func(*traceScenario)) {
 			if prev := names[d-1]; strings.Contains(prev, "/") {
 				dir = prev[:strings.LastIndex(prev, "/")+1]
 			}
+			base := fmt.Sprintf("f%d.jst", d)
 			if r.Intn(3) == 0 {
 				dir += fmt.Sprintf("d%d/", d)
+				if r.Intn(2) == 0 {
+					// the same file name as the includer, one directory further down (index.jst including users/index.jst)
+					base = names[d-1][strings.LastIndex(names[d-1], "/")+1:]
+				}
 			}
-			names = append(names, fmt.Sprintf("%sf%d.jst", dir, d))
+			names = append(names, dir+base)
 		}
 		for _, nm := range names {
 			files[nm] = &fileBuilder{}
@@ -349,10 +349,10 @@ func genTraceScenarios(c *fw.Ctx, n int, emit func(*traceScenario)) {
 // C07 – truthful error location and include trace.
 func C07(c *fw.Ctx) {
 	c.Rule("location part: every rejected case of the hostile workload (corpus, truncations, stacked mutants, dictionary strings, EOL variants, " +
-		"include/macro graphs); trace part: generated include chains of depth 1-4 with sub-directories, earlier/later sibling includes, the same " +
+		"include/macro graphs); trace part: generated include chains of depth 1-4 with sub-directories (also files of the same name in nested directories), earlier/later sibling includes, the same " +
 		"file included twice, diamonds, LF/CRLF/CR, with one fault whose occurrence is unambiguous; distinct = distinct project bytes; " +
 		"non-trivial = the build was rejected with a located error")
-	c.Assume("line/column are judged only for files with one line-ending convention; index = len(file) is read as end of file (0/0 allowed)")
+	c.Assume("line/column are judged only for files with one line-ending convention; index = len(file) is the position after the last byte and has the line/column of a cursor there")
 	pool := c.Pool(false, 0)
 	scenarios := map[string]*traceScenario{}
 	c.RunJobs(pool, func(emit func(*proto.Job)) {
@@ -387,6 +387,11 @@ func C07(c *fw.Ctx) {
 		}
 		c.Count(jobKey(j), true)
 		c.Inc("errors_checked", label, 1)
+		if res.Err != nil && !res.Err.FileNil {
+			if content, ok := j.Files[relName(res, res.Err.File)]; ok && res.Err.Index == len(content) {
+				c.Inc("errors_located_at_end_of_file", errKey(res.Err.Msg), 1)
+			}
+		}
 		for _, v := range checkLocation(j, res) {
 			c.Violate(v[0], v[1], replayOf(j, res))
 		}
@@ -422,6 +427,10 @@ func C07(c *fw.Ctx) {
 		delete(scenarios, j.ID)
 		maxMuLock.Unlock()
 		if sc == nil {
+			// corpus, mutants and graphs: the chain must at least be a chain (each frame includes the file of the frame before it)
+			if kind, what := traceChainProblem(j.Files, j.Root, pairs); kind != "" {
+				c.Violate(kind, what, replayOf(j, res))
+			}
 			return
 		}
 		c.Inc("trace_scenarios", sc.family, 1)
@@ -473,6 +482,87 @@ func C07(c *fw.Ctx) {
 		c.Inconclusive("fewer than 4 trace scenario families produced a checked error")
 	}
 	c.Finish()
+}
+
+// includeTargets returns the project-relative paths which the INCLUDE directives written on the given line of a file resolve to
+// (parameter relative to the directory of that file); nil when the line holds no INCLUDE or the file mixes line-end conventions.
+func includeTargets(files map[string][]byte, file string, line int) []string {
+	content, ok := files[file]
+	if !ok {
+		return nil
+	}
+	conv := ref.Convention(content)
+	term := "\n"
+	switch conv {
+	case ref.EOLMixed:
+		return nil
+	case ref.EOLCR:
+		term = "\r"
+	}
+	ls := strings.Split(string(content), term)
+	if line < 1 || line > len(ls) {
+		return nil
+	}
+	l := strings.TrimRight(ls[line-1], "\r")
+	k := strings.Index(l, "INCLUDE")
+	if k < 0 {
+		return nil
+	}
+	param := strings.TrimLeft(l[k+len("INCLUDE"):], " \t")
+	if strings.HasPrefix(param, "\"") {
+		var v string
+		end := strings.Index(param[1:], "\"")
+		if end < 0 {
+			return nil
+		}
+		v = param[1 : 1+end]
+		param = v
+	} else if i := strings.IndexAny(param, " \t#"); i >= 0 {
+		param = param[:i]
+	}
+	dir := ""
+	if i := strings.LastIndex(file, "/"); i >= 0 {
+		dir = file[:i+1]
+	}
+	return []string{filepath.Clean(dir + param)}
+}
+
+// traceChainProblem: every pair after the first must be an INCLUDE line whose parameter leads to the file of the pair before it, and
+// the last pair must lie in the root file. Returns "" when the chain is truthful (or cannot be judged).
+func traceChainProblem(files map[string][]byte, root string, pairs []tracePair) (kind, what string) {
+	if len(pairs) == 0 {
+		return "", ""
+	}
+	for k := 1; k < len(pairs); k++ {
+		tg := includeTargets(files, pairs[k].File, pairs[k].Line)
+		if tg == nil {
+			return "", "" // judged by the line-without-include rule
+		}
+		if tg[0] != filepath.Clean(pairs[k-1].File) {
+			// which INCLUDE lines of that file do lead there?
+			var right []int
+			for ln := 1; ln < 4000; ln++ {
+				t := includeTargets(files, pairs[k].File, ln)
+				if t != nil && t[0] == filepath.Clean(pairs[k-1].File) {
+					right = append(right, ln)
+				}
+				if ln > strings.Count(string(files[pairs[k].File]), "\n")+strings.Count(string(files[pairs[k].File]), "\r")+1 {
+					break
+				}
+			}
+			kind = "trace:include-leads-elsewhere"
+			for _, r := range right {
+				if r > pairs[k].Line {
+					kind = "trace:line-of-earlier-include-in-same-file"
+				}
+			}
+			return kind, fmt.Sprintf("trace says %s was included from %s:%d, but that line includes %s (the lines of %s that include %s: %v)", pairs[k-1].File, pairs[k].File, pairs[k].Line, tg[0], pairs[k].File, pairs[k-1].File, right)
+		}
+	}
+	if last := pairs[len(pairs)-1]; filepath.Clean(last.File) != filepath.Clean(root) {
+		return "trace:does-not-reach-root", fmt.Sprintf("the trace ends in %s, not in the root file %s", last.File, root)
+	}
+	return "", ""
 }
 
 func lineHasInclude(content []byte, line int, conv string) bool {
